@@ -673,11 +673,92 @@ def inline_module(tree: ast.Module, modname: str, known: Set[str], stats: Dict[s
     # what ordinary inlining leaves behind: architecture-level changes of a class (hooks, closures turned into methods,
     # a constructor delegating to a method); undo them, then inline again
     before = dict(stats)
+    _specialise_hooks(tree, stats)
     _returning_hooks(tree, stats)
     _methods_to_closures(tree, modname, known, stats)
     _ctor_delegates(tree, stats)
     if stats != before:
         _inline_rounds(tree, modname, known, stats)
+
+
+def _specialise_hooks(tree: ast.Module, stats: Dict[str, int]) -> None:
+    """a hook attribute `self.h` that only ever holds closures of __init__ taking parameters, and that every site calls
+    with the same attribute reads of self (`self.h(self.x)`): the closures read those attributes themselves and take no
+    parameter -- what the reference tree does.  The closures must not write the attributes they are given."""
+    for c in tree.body:
+        if not isinstance(c, ast.ClassDef):
+            continue
+        init = next((m_ for m_ in c.body if isinstance(m_, ast.FunctionDef) and m_.name == "__init__"), None)
+        if init is None:
+            continue
+        parent = {id(ch): p_ for p_ in ast.walk(c) for ch in ast.iter_child_nodes(p_)}
+        hooks: Dict[str, List[ast.Assign]] = {}
+        bad = set()
+        for n in ast.walk(c):
+            if isinstance(n, ast.Attribute) and isinstance(n.value, ast.Name) and n.value.id == "self" and isinstance(n.ctx, ast.Store):
+                st = parent.get(id(n))
+                if isinstance(st, ast.Assign) and len(st.targets) == 1 and isinstance(st.value, ast.Name) and any(st is x for x in ast.walk(init)):
+                    hooks.setdefault(n.attr, []).append(st)
+                else:
+                    bad.add(n.attr)
+        for h, sts in hooks.items():
+            if h in bad:
+                continue
+            cl = [d for st in sts for d in ast.walk(init) if isinstance(d, ast.FunctionDef) and d.name == st.value.id and d is not init]
+            if not cl:
+                continue
+            sig = {tuple(a.arg for a in d.args.args) for d in cl}
+            if len(sig) != 1 or not next(iter(sig)) or any(d.args.vararg or d.args.kwarg or d.args.kwonlyargs or d.args.defaults or d.decorator_list for d in cl):
+                continue
+            params = next(iter(sig))
+            # every use of the hook and every direct call of the closures
+            sites = []
+            ok = True
+            for u in ast.walk(c):
+                if isinstance(u, ast.Attribute) and u.attr == h and isinstance(u.ctx, ast.Load):
+                    call = parent.get(id(u))
+                    if not (isinstance(call, ast.Call) and call.func is u and isinstance(u.value, ast.Name) and u.value.id == "self"):
+                        ok = False
+                    else:
+                        sites.append(call)
+                if isinstance(u, ast.Name) and isinstance(u.ctx, ast.Load) and u.id in {d.name for d in cl}:
+                    call = parent.get(id(u))
+                    if isinstance(call, ast.Call) and call.func is u:
+                        sites.append(call)
+                    elif parent.get(id(u)) not in sts:
+                        ok = False
+            if not ok or not sites:
+                continue
+            args0 = None
+            for call in sites:
+                if call.keywords or len(call.args) != len(params) or not all(
+                        isinstance(a, ast.Attribute) and isinstance(a.value, ast.Name) and a.value.id == "self" for a in call.args):
+                    ok = False
+                    break
+                dumped = [ast.dump(a) for a in call.args]
+                if args0 is None:
+                    args0 = dumped
+                elif dumped != args0:
+                    ok = False
+                    break
+            if not ok:
+                continue
+            given = {a.attr for a in sites[0].args}
+            if any(isinstance(n, ast.Attribute) and isinstance(n.ctx, (ast.Store, ast.Del)) and isinstance(n.value, ast.Name) and n.value.id == "self"
+                   and n.attr in given for d in cl for n in ast.walk(d)):
+                continue
+            if any(isinstance(n, ast.Name) and isinstance(n.ctx, (ast.Store, ast.Del)) and n.id in params for d in cl for n in ast.walk(d)):
+                continue
+            m = {p_: sites[0].args[i] for i, p_ in enumerate(params)}
+            for d in cl:
+                d.args.args = []
+                holder = ast.Module(body=d.body, type_ignores=[])
+                Subst(dict(m)).visit(holder)
+                d.body = holder.body
+                ast.fix_missing_locations(d)
+            for call in sites:
+                call.args = []
+            stats["hook arguments specialised"] = stats.get("hook arguments specialised", 0) + 1
 
 
 def _inline_rounds(tree: ast.Module, modname: str, known: Set[str], stats: Dict[str, int]) -> None:
